@@ -6,11 +6,30 @@ depth bound; the canonical key contains the cache-fill bits, so "read before the
 states.  Programs are systematic over the KINDS of dependency edge (every way option X can mention option Y) and all
 2-hop chains of the bool-producing kinds.
 
+RETIRED NAMES (wave 4): a second program family (`retired_programs`) whose expressions mention a name that no `config`
+defines (every edge kind a bool / int / string name can sit in, two 2-hop chains, choices, menus), explored with loads of
+files that carry that name in their "Deprecated options" block: load_deprecated=True as replace and as merge,
+load_deprecated=False as control, the entry as `=y` / `is not set` / typed value; with a rename table (plain and
+inverted, the file then being the one the tool itself writes with write_deprecated=True) and without; the retired name is
+itself in the read alphabet (so "evaluated before the load" is reachable directly and through every dependent), can be
+set / unset through the API once a load made it assignable, and is part of the observation, of the canonical key and of
+the final user state.
+
+CHOICE OBJECTS: every memoised attribute of a Choice is in the read alphabet (`readc` = selection + visibility, `readcf`
+= ONE attribute: assignable in the quick tier; visibility, selection, assignable and the derived mode each alone in the
+thorough tier); all of them and the mode (str/bool value) are part of the observation the oracles compare, and the
+cache-fill bit of each is part of the canonical key.
+
 Oracles, after every transition, on twin instances built by replaying the same history:
-  (1) observation through the API == observation after Kconfig._invalidate_all()
+  (1) observation through the API == observation after EVERY `_cached_*` slot of every non-constant symbol known to the
+      instance (defined or only mentioned) and of every choice was reset by hand (not through the library's own
+      _invalidate(), which is part of what is being checked)
   (2) (histories without stale default-marked loads) == a fresh instance given only the final user values and picks,
       applied in definition order and in reverse order
+      (a retired name's final value is applied to the fresh instance the only way the API allows: a deprecated block
+      carrying it, loaded as a merge with load_deprecated=True, before or after the other values)
   (3) observations read in forward and in reverse order are identical
+  (4) the same history without its read operations leads to the same observation
 """
 
 from __future__ import annotations
@@ -26,12 +45,19 @@ LEVEL = "model_checking"
 RULE = (
     "explicit-state BFS per program over W-ops (set/unset/reset/load/merge) and R-ops (read one option / one choice) up to "
     "the depth bound; states merged on (user state, cache-fill bits); programs = one per dependency-edge kind x type plus all "
-    "2-hop chains. distinct_nontrivial counts distinct (program, canonical state) pairs in which at least one memoised field "
+    "2-hop chains, plus one per edge kind in which a name WITHOUT definition is mentioned (bool/int/string, chains, choices, menus; "
+    "with and without a rename table) explored with loads of files carrying that name in the deprecated block "
+    "(load_deprecated True as replace / merge, False as control) and set/unset of the name once it is assignable; reads = one "
+    "option (defined or only mentioned) / one choice / ONE memoised attribute of a choice object. distinct_nontrivial counts distinct (program, canonical state) pairs in which at least one memoised field "
     "was filled before the last W-op (i.e. invalidation had something to do)."
 )
 ASSUMPTIONS = [
     "final user state for the fresh-instance comparison is read from Symbol._user_value / Choice._user_selection of the explored instance",
     "the fresh-instance comparison is skipped for histories containing a load with stale default-marked entries (as the statement allows)",
+    "a file the tool wrote (write_deprecated=True) BEFORE the retired name took part in evaluation counts as carrying stale default-marked entries when loaded with load_deprecated=True",
+    "the final user value of a retired name is applied to the fresh instance by a merge-load of a synthesised deprecated block (there is no other API); "
+    "a retired name that a load made assignable and whose value was then unset is re-created the same way and unset",
+    "'all cached results discarded' = every slot named _cached_* of every non-constant Symbol in Kconfig.syms and of every Choice reset to its empty marker",
 ]
 
 
@@ -199,17 +225,130 @@ def chain_programs() -> Iterator[Dict[str, Any]]:
             yield {"kind": f"chain:{k1}>{k2}{'+zprompt' if zprompt else ''}", "prog": Program(children=kids), "setters": setters, "loads": []}
 
 
+# --------------------------------------------------------------------------------------------------
+# retired names: mentioned by expressions, defined nowhere, brought in by the deprecated block of a loaded file
+# --------------------------------------------------------------------------------------------------
+DEP_BEGIN = "# Deprecated options for backward compatibility"
+DEP_END = "# End of deprecated options"
+
+
+def dep_block(entries) -> str:
+    """entries: [(name, text of the value as written in the file | None for `is not set`)]"""
+    lines = [DEP_BEGIN]
+    for n, v in entries:
+        lines.append(f"# CONFIG_{n} is not set" if v is None else f"CONFIG_{n}={v}")
+    lines.append(DEP_END)
+    return "\n".join(lines) + "\n"
+
+
+def retired_programs(tier: str = "thorough") -> Iterator[Dict[str, Any]]:
+    """One program per way an expression can mention the name OLD, which no `config` defines.
+    retired: {name: [values set_value() is tried with once a load made the name assignable]};
+    dep_loads: files whose deprecated block carries the name (no default-marked entries: never stale);
+    renames: rename table given to the instance (None = none)."""
+    O = S("OLD")
+
+    def P(kind, kids, setters, vals=("y", None), oldset=("n",), renames=None, extra=()):
+        return {"kind": "retired:" + kind, "prog": Program(children=kids), "setters": setters, "loads": [],
+                "retired": {"OLD": list(oldset)}, "dep_loads": [dep_block([("OLD", v)]) for v in vals] + list(extra), "renames": renames}
+
+    def two():
+        return [Cfg("X", "bool", prompt="x"), Cfg("X2", "bool", prompt="x2")]
+
+    yield P("default_cond_bool", [Cfg("X", "bool", prompt="x", defaults=[(L("y"), O), (L("n"), None)])], {"X": ["n"]})
+    yield P("default_cond_int", [Cfg("X", "int", prompt="x", defaults=[(L("7"), O), (L("3"), None)])], {"X": ["4"]})
+    yield P("default_cond_str_promptless", [Cfg("X", "string", defaults=[(L('"a"'), O), (L('"b"'), None)]),
+                                            Cfg("E", "bool", prompt="e", depends=[Rel("=", S("X"), L('"a"'))], defaults=[(L("y"), None)])], {"E": ["n"]})
+    yield P("default_value", [Cfg("X", "bool", prompt="x", defaults=[(O, None)])], {"X": ["n"]})
+    yield P("default_value_promptless", [Cfg("X", "bool", defaults=[(O, None)]), Cfg("E", "string", prompt="e", depends=[S("X")], defaults=[(L('"on"'), None)])], {"E": ["u"]})
+    yield P("not_default", [Cfg("X", "bool", prompt="x", defaults=[(L("y"), Not(O))])], {"X": ["n"]})
+    yield P("depends", [Cfg("X", "bool", prompt="x", depends=[O], defaults=[(L("y"), None)])], {"X": ["n"]})
+    yield P("depends_str", [Cfg("X", "string", prompt="x", depends=[O], defaults=[(L('"d"'), None)])], {"X": ["u"]})
+    yield P("prompt_cond", [Cfg("X", "int", prompt="x", prompt_cond=O, defaults=[(L("5"), None)])], {"X": ["9"]})
+    yield P("range_cond", [Cfg("X", "int", prompt="x", ranges=[(L("1"), L("5"), O)], defaults=[(L("3"), None)])], {"X": ["9"]})
+    yield P("and_dep", [ybool(), Cfg("X", "bool", prompt="x", depends=[And(S("Y"), O)], defaults=[(L("y"), None)])], {"Y": ["y"], "X": ["n"]})
+    yield P("or_dep", [ybool(), Cfg("X", "bool", prompt="x", depends=[Or(S("Y"), O)], defaults=[(L("y"), None)])], {"Y": ["y"], "X": ["n"]})
+    y = ybool(); y.selects.append(("X", O))
+    yield P("select_cond", [y, Cfg("X", "bool", prompt="x")], {"Y": ["y"], "X": ["n"]})
+    y = ybool(); y.implies.append(("X", O))
+    yield P("imply_cond", [y, Cfg("X", "bool", prompt="x")], {"Y": ["y"], "X": ["n"]})
+    y = ybool(); y.sets.append(("X", L("7"), O))
+    yield P("set_cond", [y, Cfg("X", "int", prompt="x", defaults=[(L("3"), None)])], {"Y": ["y"]})
+    y = ybool(); y.wsets.append(("X", L("7"), O))
+    yield P("wset_cond", [y, Cfg("X", "int", prompt="x", defaults=[(L("3"), None)])], {"Y": ["y"]})
+    # choices
+    yield P("choice_depends", [Choice(prompt="c", depends=[O], children=two())], {"X2": ["y"]})
+    yield P("choice_prompt_cond", [Choice(prompt="c", prompt_cond=O, children=two())], {"X2": ["y"]})
+    yield P("choice_default_cond", [Choice(prompt="c", defaults=[("X2", O)], children=two()), Cfg("D", "int", defaults=[(L("1"), S("X2")), (L("2"), None)])], {"X": ["y"]})
+    yield P("member_visibility", [Choice(prompt="c", children=[Cfg("X", "bool", prompt="x", prompt_cond=O), Cfg("X2", "bool", prompt="x2")])], {"X": ["y"], "X2": ["y"]})
+    yield P("member_depends", [Choice(prompt="c", children=[Cfg("X", "bool", prompt="x", depends=[O]), Cfg("X2", "bool", prompt="x2")])], {"X": ["y"]})
+    # structure
+    yield P("menu_visible_if", [Menu(visible_if=[O], children=[Cfg("X", "int", prompt="x", defaults=[(L("3"), None)])])], {"X": ["4"]})
+    yield P("menu_depends", [Menu(depends=[O], children=[Cfg("X", "int", prompt="x", defaults=[(L("3"), None)])])], {"X": ["4"]})
+    yield P("if_block", [If(cond=O, children=[Cfg("X", "string", prompt="x", defaults=[(L('"d"'), None)])])], {"X": ["u"]})
+    yield P("menu_visible_if_choice", [Menu(visible_if=[O], children=[Choice(prompt="c", children=two())])], {"X2": ["y"]})
+    # typed entries (the type of the retired name is inferred from the text of its entry)
+    yield P("rel_int_eq", [Cfg("X", "bool", prompt="x", depends=[Rel("=", O, L("3"))], defaults=[(L("y"), None)])], {"X": ["n"]}, vals=("3", "5"), oldset=("4",))
+    yield P("rel_int_lt", [Cfg("X", "int", defaults=[(L("1"), Rel("<", O, L("3"))), (L("2"), None)]), Cfg("E", "bool", prompt="e", defaults=[(L("y"), Rel("=", S("X"), L("1")))])],
+            {"E": ["n"]}, vals=("2", "5"), oldset=("7",))
+    yield P("rel_hex_eq", [Cfg("X", "bool", prompt="x", depends=[Rel("=", O, L("0x3"))], defaults=[(L("y"), None)])], {"X": ["n"]}, vals=("0x3", "0x5"), oldset=("0x4",))
+    yield P("rel_str_eq", [Cfg("X", "int", prompt="x", defaults=[(L("1"), Rel("=", O, L('"b"'))), (L("2"), None)])], {"X": ["4"]}, vals=('"b"', '"c"'), oldset=("d",))
+    yield P("rel_str_ne", [Cfg("X", "bool", prompt="x", depends=[Rel("!=", O, L('"b"'))], defaults=[(L("y"), None)])], {"X": ["n"]}, vals=('"b"', '"c"'), oldset=("b",))
+    # 2-hop chains from the retired name
+    yield P("chain:default_value>depends", [Cfg("Z", "bool", defaults=[(O, None)]), Cfg("X", "bool", prompt="x", depends=[S("Z")], defaults=[(L("y"), None)])], {"X": ["n"]})
+    yield P("chain:depends>default_cond", [Cfg("Z", "bool", prompt="z", depends=[O], defaults=[(L("y"), None)]), Cfg("X", "int", prompt="x", defaults=[(L("7"), S("Z")), (L("3"), None)])],
+            {"Z": ["n"], "X": ["4"]})
+    z = Cfg("Z", "bool", prompt="z", depends=[O], defaults=[(L("y"), None)]); z.selects.append(("X", None))
+    yield P("chain:depends>select", [z, Cfg("X", "bool", prompt="x")], {"Z": ["n"], "X": ["n"]})
+    yield P("chain:default_cond>choice_depends", [Cfg("Z", "bool", defaults=[(L("y"), O)]), Choice(prompt="c", depends=[S("Z")], children=two())], {"X2": ["y"]})
+    # two retired names in one file
+    yield dict(P("two_names", [Cfg("X", "bool", prompt="x", depends=[O], defaults=[(L("y"), None)]), Cfg("W", "int", prompt="w", defaults=[(L("7"), S("OLD2")), (L("3"), None)])], {"X": ["n"]},
+                 vals=(), extra=[dep_block([("OLD", "y"), ("OLD2", None)]), dep_block([("OLD2", "y")])]), retired={"OLD": ["n"], "OLD2": []})
+    # --- with a rename table OLD -> NEW (NEW is defined; the file is then also the one the tool writes itself)
+    RN = ["CONFIG_OLD CONFIG_NEW\n"]
+    plain = ["CONFIG_OLD=y\n"]  # outside the block: mapped to NEW by the table
+    q = tier == "quick"  # quick tier: the replacement is the only settable option, two variants left to the thorough tier
+
+    def st(d):
+        return {k: v for k, v in d.items() if k == "NEW"} if q else d
+
+    yield P("rn:default_cond_bool", [Cfg("NEW", "bool", prompt="new"), Cfg("X", "bool", prompt="x", defaults=[(L("y"), O), (L("n"), None)])], st({"NEW": ["y"], "X": ["n"]}), renames=RN, extra=plain)
+    yield P("rn:choice_depends", [Cfg("NEW", "bool", prompt="new"), Choice(prompt="c", depends=[O], children=two())], st({"NEW": ["y"], "X2": ["y"]}), renames=RN)
+    yield P("rn:rel_int_eq", [Cfg("NEW", "int", prompt="new", defaults=[(L("1"), None)]), Cfg("X", "bool", prompt="x", depends=[Rel("=", O, L("3"))], defaults=[(L("y"), None)])],
+            st({"NEW": ["3"], "X": ["n"]}), vals=("3", "5"), oldset=("4",), renames=RN)
+    yield P("rn_inv:default_cond_bool", [Cfg("NEW", "bool", prompt="new"), Cfg("X", "bool", prompt="x", defaults=[(L("y"), O), (L("n"), None)])], st({"NEW": ["y"], "X": ["n"]}),
+            renames=["CONFIG_OLD !CONFIG_NEW\n"], extra=plain)
+    if not q:
+        yield P("rn:depends", [Cfg("NEW", "bool", prompt="new"), Cfg("X", "bool", prompt="x", depends=[O], defaults=[(L("y"), None)])], {"NEW": ["y"], "X": ["n"]}, renames=RN, extra=plain)
+        yield P("rn:new_follows_old", [Cfg("NEW", "bool", prompt="new", defaults=[(O, None)]), Cfg("X", "int", prompt="x", defaults=[(L("7"), S("NEW")), (L("3"), None)])], {"NEW": ["n"], "X": ["4"]}, renames=RN)
+
+
 def all_programs(tier: str) -> List[Dict[str, Any]]:
     progs = list(edge_programs()) + list(chain_programs())
     return progs
 
 
+ITEM_KEYS = ("setters", "loads", "depth", "wdepth", "retired", "dep_loads", "renames", "cfields")
+
+
 def items(tier: str, seed: int):
     depth = 4 if tier == "quick" else 5
+    # single attributes of a choice object that are read events of their own.  `readc` reads selection + visibility together,
+    # so with `assignable` every memoised attribute is in the quick alphabet; the thorough tier also reads each one alone
+    # and the mode (derived from the visibility, not memoised itself)
+    cfields = ["assignable"] if tier == "quick" else ["visibility", "selection", "assignable", "bool_value"]
     out = []
-    for p in all_programs(tier):
-        out.append({"kind": p["kind"], "files": kgen.render(p["prog"]), "setters": p["setters"], "loads": p["loads"], "depth": depth, "wdepth": 3})
+    for p in all_programs(tier) + list(retired_programs(tier)):  # (all_programs() is also C09's list of bases: left as it was)
+        out.append({"kind": p["kind"], "files": kgen.render(p["prog"]), "setters": p["setters"], "loads": p["loads"], "depth": depth, "wdepth": 3,
+                    "retired": p.get("retired", {}), "dep_loads": p.get("dep_loads", []), "renames": p.get("renames"), "cfields": cfields})
     return out
+
+
+def extra_syms(k) -> List[Any]:
+    """symbols the instance knows that no `config` defines (names only mentioned by expressions / brought in by a deprecated
+    block; unquoted number literals are such symbols too), in the deterministic order of Kconfig.syms"""
+    defined = set(id(s) for s in k.unique_defined_syms)
+    return [s for s in k.syms.values() if not s.is_constant and id(s) not in defined]
 
 
 def op_menu(item, k) -> List[tuple]:
@@ -228,30 +367,110 @@ def op_menu(item, k) -> List[tuple]:
     for t in item.get("tool_files", []):
         ops.append(("load", t, True))
         ops.append(("load", t, False))  # merged into the current user values: its default-marked entries may then be out of date
+    # files carrying a retired name in their deprecated block: requested (replace / merge) and not requested (control)
+    for t in item.get("dep_loads", []):
+        ops.append(("load", t, True, True))
+        ops.append(("load", t, False, True))
+        ops.append(("load", t, False, False))
+    for t in item.get("tool_dep_files", []):
+        ops.append(("load", t, True, True))
+    # a retired name is assignable through the API once a load gave it its synthetic prompt
+    for name, vals in item.get("retired", {}).items():
+        s = k.syms.get(name)
+        if s is not None and s.nodes:
+            for v in vals:
+                ops.append(("set", name, v))
+            ops.append(("unset", name))
     for s in k.unique_defined_syms:
         ops.append(("read", s.name))
+    for name in item.get("retired", {}):
+        if name in k.syms:
+            ops.append(("read", name))
     for i, _c in enumerate(k.unique_choices):
         ops.append(("readc", i))
+        for f in item.get("cfields", []):
+            ops.append(("readcf", i, f))
     return ops
 
 
 def is_w(op) -> bool:
-    return op[0] not in ("read", "readc")
+    return op[0] not in ("read", "readc", "readcf")
 
 
-def final_user(inst) -> Tuple[List[tuple], List[Optional[str]]]:
+def full_obs(inst, order: Optional[List[str]] = None) -> Dict[str, tuple]:
+    """impl.Inst.obs() extended to the symbols that are only mentioned / were brought in by a deprecated block"""
+    k = inst.k
+    names = [s.name for s in k.unique_defined_syms] + [s.name for s in extra_syms(k)]
+    if order is not None:
+        names = order
+    out = {}
+    for n in names:
+        s = k.syms[n]
+        out[n] = (s.str_value, s.visibility, tuple(s.assignable), s.config_string, bool(s._write_to_conf))
+    return out
+
+
+def full_bits(inst) -> tuple:
+    """cache-fill bits of EVERY memoised slot: impl.cache_bits + assignable of the choices + the only-mentioned symbols"""
+    k = inst.k
+    return (
+        impl.cache_bits(inst)
+        + tuple(c._cached_assignable is not None for c in k.unique_choices)
+        + tuple((s._cached_str_val is not None, s._cached_bool_val is not None, s._cached_vis is not None, s._cached_assignable is not None) for s in extra_syms(k))
+    )
+
+
+def discard_all(k) -> None:
+    """resets every memoised slot by hand (the library's own _invalidate() is under test)"""
+    core = impl.core()
+    for s in list(k.unique_defined_syms) + extra_syms(k):
+        for slot in type(s).__slots__:
+            if slot.startswith("_cached_"):
+                setattr(s, slot, None)
+    for c in k.unique_choices:
+        for slot in type(c).__slots__:
+            if slot.startswith("_cached_"):
+                setattr(c, slot, core._NO_CACHED_SELECTION if slot == "_cached_selection" else None)
+
+
+def final_user(inst) -> Tuple[List[tuple], List[Optional[str]], List[tuple]]:
     k = inst.k
     vals = [(s.name, s._user_value) for s in k.unique_defined_syms if s._user_value is not None]
     picks = [c._user_selection.name if c._user_selection is not None else None for c in k.unique_choices]
-    return vals, picks
+    # retired names a load made part of the configuration: (name, type, user value)
+    old = [(s.name, s.orig_type, s._user_value) for s in extra_syms(k) if s.nodes]
+    return vals, picks, old
 
 
-def fresh_with(files, vals, picks, reverse: bool):
-    inst = impl.Inst(files)
+def old_entry(name: str, typ: int, uv: Any) -> Tuple[str, Optional[str]]:
+    """the deprecated-block entry that gives a retired name this type and user value (a value-less one: any value of the type)"""
+    core = impl.core()
+    if typ == core.BOOL:
+        return (name, "y" if uv in (2, "y") else None)
+    if typ == core.STRING:
+        return (name, '"' + (uv or "").replace("\\", "\\\\").replace('"', '\\"') + '"')
+    if typ == core.HEX:
+        return (name, uv if uv is not None else "0x0")
+    return (name, uv if uv is not None else "0")
+
+
+def fresh_with(files, vals, picks, reverse: bool, old=(), renames=None):
+    inst = impl.Inst(files, renames=renames)
     k = inst.k
+
+    def apply_old():
+        if not old:
+            return
+        inst.load_text(dep_block([old_entry(n, t, uv) for n, t, uv in old]), replace=False, load_deprecated=True)
+        for n, _t, uv in old:
+            if uv is None:
+                k.syms[n].unset_value()
+
     seq = list(vals)
     if reverse:
         seq.reverse()
+    else:
+        apply_old()
     pickset = {p for p in picks if p}
     late = [(n, v) for n, v in seq if n in pickset]
     for n, v in seq:
@@ -260,6 +479,8 @@ def fresh_with(files, vals, picks, reverse: bool):
         k.syms[n].set_value(v)
     for n, v in late:
         k.syms[n].set_value(v)
+    if reverse:
+        apply_old()
     # a pick whose member carries no user value y cannot arise through the API; picks are implied by `late`
     return inst
 
@@ -269,19 +490,32 @@ def explore_item(item, r: common.Result, only_history=None):
     kind = item["kind"]
     ptext = files["Kconfig"]
     wdepth = item["wdepth"]
+    renames = item.get("renames")
+    kw = {"renames": renames} if renames else {}
     stale_texts = set(item["loads"])
     if "tool_files" not in item:
-        tf = [impl.Inst(files).config_text()]
-        for name, vals in item["setters"].items():
-            w = impl.Inst(files)
-            w.set(name, vals[0])
-            t = w.config_text()
-            if t not in tf:
-                tf.append(t)
-        item = dict(item, tool_files=tf)
+        tf = [impl.Inst(files, **kw).config_text()]
+        tdf = []
+        for name, vals in [(None, [None])] + list(item["setters"].items()):
+            w = impl.Inst(files, **kw)
+            if name is not None:
+                w.set(name, vals[0])
+                t = w.config_text()
+                if t not in tf:
+                    tf.append(t)
+            if renames:
+                # what the tool writes for users of the old names: the retired name's entry follows its replacement
+                t = w.config_text(write_deprecated=True)
+                if t not in tdf:
+                    tdf.append(t)
+        if item.get("retired"):
+            tf = []  # (loads of plain tool-written files are covered by the programs without a retired name)
+        item = dict(item, tool_files=tf, tool_dep_files=tdf)
+    # written before the retired name took part in evaluation: their default-marked entries may be out of date
+    stale_texts |= set(item["tool_dep_files"])
 
     def build(h):
-        return impl.replay_ops(files, h)
+        return impl.replay_ops(files, h, **kw)
 
     def enabled(h, st):
         ops = op_menu(item, st.k)
@@ -291,32 +525,45 @@ def explore_item(item, r: common.Result, only_history=None):
         # a read directly after a read of the same thing adds nothing
         return [o for o in ops if not (h and not is_w(o) and h[-1] == o)]
 
+    def ext_state(st):
+        return tuple((s.name, s._user_value, s.orig_type, bool(s.nodes)) for s in extra_syms(st.k))
+
     def canon(st):
-        return (st.user_state(), impl.cache_bits(st), tuple(repr(s.defaults) if getattr(s, "_default_value_injected", False) else 0 for s in st.k.unique_defined_syms))
+        return (st.user_state(), ext_state(st), full_bits(st), tuple(repr(s.defaults) if getattr(s, "_default_value_injected", False) else 0 for s in st.k.unique_defined_syms))
+
+    def mkcase(h):
+        return {"kind": kind, "program": ptext, "files": files, "history": [list(o) for o in h], "item": {k: item[k] for k in ITEM_KEYS if k in item}}
+
+    def chdiff(a, b) -> str:
+        return "+".join(sorted({f for x, y in zip(a, b) for f, u, v in zip(("name", "selection", "visibility", "assignable", "str_value", "bool_value"), x, y) if u != v}))
+
+    def sigfields(oa, ob, diff, ca, cb) -> str:
+        f = fields_diff(oa, ob, diff)
+        c = chdiff(ca, cb)
+        return f + (("|" if f else "") + "choice." + c if c else "")
 
     def check(h, st):
         r.evals += 1
-        case = {"kind": kind, "program": ptext, "files": files, "history": [list(o) for o in h], "item": {k: item[k] for k in ("setters", "loads", "depth", "wdepth")}}
-        bits = impl.cache_bits(st)
+        case = mkcase(h)
+        bits = full_bits(st)
         # (1) API observation vs. observation after discarding all caches
-        obs_api = st.obs()
-        ch_api = st.choice_obs()
+        obs_api = full_obs(st)
+        ch_api = st.choice_obs(full=True)
         t1 = build(h)
-        t1.k._invalidate_all()
-        obs_inv = t1.obs()
-        ch_inv = t1.choice_obs()
+        discard_all(t1.k)
+        obs_inv = full_obs(t1)
+        ch_inv = t1.choice_obs(full=True)
         if obs_api != obs_inv or ch_api != ch_inv:
             diff = [n for n in obs_api if obs_api[n] != obs_inv[n]]
             r.violation(
-                {"kind": "stale_cache", "edge": kind, "fields": fields_diff(obs_api, obs_inv, diff)},
+                {"kind": "stale_cache", "edge": kind, "fields": sigfields(obs_api, obs_inv, diff, ch_api, ch_inv)},
                 f"[{kind}] after {fmt(h)}: cached {dict((n, obs_api[n][:3]) for n in diff)} but recomputed {dict((n, obs_inv[n][:3]) for n in diff)}"
                 + (f"; choices {ch_api} vs {ch_inv}" if ch_api != ch_inv else ""),
                 case,
             )
         # (3) read order
         t2 = build(h)
-        names = [s.name for s in t2.k.unique_defined_syms]
-        obs_rev = t2.obs(order=list(reversed(names)))
+        obs_rev = full_obs(t2, order=list(reversed(list(obs_api))))
         if obs_rev != obs_api:
             diff = [n for n in obs_api if obs_api[n] != obs_rev[n]]
             r.violation(
@@ -324,39 +571,40 @@ def explore_item(item, r: common.Result, only_history=None):
                 f"[{kind}] after {fmt(h)}: reading in reverse order gives {dict((n, obs_rev[n][:3]) for n in diff)}, forward {dict((n, obs_api[n][:3]) for n in diff)}",
                 case,
             )
-        # (2) fresh instance with the same final user state
         # (4) reads are pure: the same history without its read operations leads to the same observation
         if any(not is_w(o) for o in h):
             t3 = build(tuple(o for o in h if is_w(o)))
-            obs_nr = t3.obs()
-            ch_nr = t3.choice_obs()
+            obs_nr = full_obs(t3)
+            ch_nr = t3.choice_obs(full=True)
             if obs_nr != obs_api or ch_nr != ch_api:
                 diff = [n for n in obs_api if obs_api[n] != obs_nr[n]]
                 r.violation(
-                    {"kind": "read_changed_outcome", "edge": kind, "fields": fields_diff(obs_api, obs_nr, diff)},
+                    {"kind": "read_changed_outcome", "edge": kind, "fields": sigfields(obs_api, obs_nr, diff, ch_api, ch_nr)},
                     f"[{kind}] after {fmt(h)}: {dict((n, obs_api[n][:3]) for n in diff)}, but without the reads in that history {dict((n, obs_nr[n][:3]) for n in diff)}"
                     + (f"; choices {ch_api} vs {ch_nr}" if ch_api != ch_nr else ""),
                     case,
                 )
-        stale = any(o[0] == "load" and (o[1] in stale_texts or not o[2]) for o in h)
+        # (2) fresh instance with the same final user state
+        stale = any(o[0] == "load" and (o[1] in stale_texts or (not o[2] and o[1] not in item.get("dep_loads", []))) for o in h)
         if not stale:
-            vals, picks = final_user(st)
+            vals, picks, old = final_user(st)
             for rev in (False, True):
-                f = fresh_with(files, vals, picks, rev)
+                f = fresh_with(files, vals, picks, rev, old, renames)
                 if [c._user_selection.name if c._user_selection is not None else None for c in f.k.unique_choices] != picks:
                     continue  # final pick not reproducible from user values alone (pick remembered on a member later set to n)
-                obs_f = f.obs()
-                ch_f = f.choice_obs()
+                obs_f = full_obs(f)
+                ch_f = f.choice_obs(full=True)
                 if obs_f != obs_inv or ch_f != ch_inv:
                     diff = [n for n in obs_f if obs_f[n] != obs_inv[n]]
                     r.violation(
-                        {"kind": "fresh_instance", "edge": kind, "fields": fields_diff(obs_inv, obs_f, diff)},
-                        f"[{kind}] after {fmt(h)}: fresh instance with user values {vals} (reverse={rev}) gives "
-                        f"{dict((n, obs_f[n][:3]) for n in diff)}, explored instance (recomputed) {dict((n, obs_inv[n][:3]) for n in diff)}",
+                        {"kind": "fresh_instance", "edge": kind, "fields": sigfields(obs_inv, obs_f, diff, ch_inv, ch_f)},
+                        f"[{kind}] after {fmt(h)}: fresh instance with user values {vals}{' + retired ' + repr(old) if old else ''} (reverse={rev}) gives "
+                        f"{dict((n, obs_f[n][:3]) for n in diff)}, explored instance (recomputed) {dict((n, obs_inv[n][:3]) for n in diff)}"
+                        + (f"; choices {ch_f} vs {ch_inv}" if ch_f != ch_inv else ""),
                         case,
                     )
-        if h and any(any(b) for b in prev_bits(h)):
-            r.outcome((ptext, st.user_state(), bits))
+        if h and any(any(b) if isinstance(b, tuple) else b for b in prev_bits(h)):
+            r.outcome((ptext, st.user_state(), ext_state(st), bits))
 
     _pb: Dict[tuple, tuple] = {}
 
@@ -365,7 +613,7 @@ def explore_item(item, r: common.Result, only_history=None):
         hp = h[:-1]
         if hp not in _pb:
             _pb.clear()
-            _pb[hp] = impl.cache_bits(build(hp))
+            _pb[hp] = full_bits(build(hp))
         return _pb[hp]
 
     if only_history is not None:
@@ -375,13 +623,14 @@ def explore_item(item, r: common.Result, only_history=None):
         except impl.OpRaised as e:
             r.violation({"kind": "exception", "exc": e.exc_type, "site": e.site, "op": e.op[0]}, f"[{kind}] {fmt(h)}: {e}", {})
         return None
+
     def on_raise(h, e):
         if not isinstance(e, impl.OpRaised):
             raise e
         r.violation(
             {"kind": "exception", "exc": e.exc_type, "site": e.site, "op": e.op[0]},
             f"[{kind}] {fmt(h)}: {e}",
-            {"kind": kind, "program": ptext, "files": files, "history": [list(o) for o in h], "item": {k: item[k] for k in ("setters", "loads", "depth", "wdepth")}},
+            mkcase(h),
         )
 
     st = explore.bfs(build, enabled, canon, check, item["depth"], on_raise=on_raise)
